@@ -300,7 +300,7 @@ class _NormalForm(ast.NodeTransformer):
         """Elements of a constant table: a tuple/list display, or a module-level name bound once to one."""
         if isinstance(it, ast.Name) and it.id not in self.locals and self.mod.has_assign(it.id):
             it = self.mod.assign_value(it.id)
-        if isinstance(it, (ast.Tuple, ast.List)) and 0 < len(it.elts) <= 8 and not any(isinstance(x, ast.Starred) for x in it.elts):
+        if isinstance(it, (ast.Tuple, ast.List)) and 0 < len(it.elts) <= 16 and not any(isinstance(x, ast.Starred) for x in it.elts):
             simple = lambda x: isinstance(x, (ast.Name, ast.Constant, ast.Attribute)) or (isinstance(x, (ast.Tuple, ast.List)) and all(simple(y) for y in x.elts))     # noqa: E731
             if all(simple(x) for x in it.elts):
                 return list(it.elts)
@@ -309,6 +309,17 @@ class _NormalForm(ast.NodeTransformer):
     def _unroll(self, st: ast.For) -> T.Optional[T.List[ast.stmt]]:
         """`for a, b in CONST_TABLE: body` with no break/continue/else -> the body once per row, loop variables substituted."""
         rows = self._const_rows(st.iter)
+        if rows is not None and isinstance(st.target, ast.Name) and len(st.body) == 1 and isinstance(st.body[0], ast.If) and not st.body[0].orelse \
+                and st.body[0].body and isinstance(st.body[0].body[-1], ast.Break) \
+                and not any(isinstance(n, (ast.Break, ast.Continue)) for x in st.body[0].body[:-1] for n in ast.walk(x)):
+            # for x in TABLE: if T(x): S(x); break   else: E      ->      if T(a): S(a) elif T(b): S(b) ... else: E
+            chain: T.List[ast.stmt] = list(copy.deepcopy(st.orelse))
+            for row in reversed(rows):
+                names0 = {st.target.id: row}
+                test = _Rename(names0).visit(copy.deepcopy(st.body[0].test))
+                body = [_Rename(names0).visit(copy.deepcopy(x)) for x in st.body[0].body[:-1]] or [ast.Pass()]
+                chain = [ast.fix_missing_locations(ast.copy_location(ast.If(test=test, body=body, orelse=chain), st))]
+            return chain
         if rows is None or st.orelse or any(isinstance(n, (ast.Break, ast.Continue)) for x in st.body for n in ast.walk(x)):
             return None
         tnames = [st.target] if isinstance(st.target, ast.Name) else list(st.target.elts) if isinstance(st.target, ast.Tuple) else None
@@ -380,10 +391,48 @@ class _NormalForm(ast.NodeTransformer):
             return None
         return [ast.fix_missing_locations(_Rename(names).visit(x)) for x in new]
 
+    def _inline_tail_call(self, st: ast.stmt) -> T.Optional[T.List[ast.stmt]]:
+        """`return H(args)` with H a module-level function: H's body in place (its returns are the caller's returns).  The caller's locals are
+        dead after a tail call, so H's locals need no renaming; an argument that is not a plain name is bound to a fresh local first."""
+        if not (isinstance(st, ast.Return) and isinstance(st.value, ast.Call) and isinstance(st.value.func, ast.Name)):
+            return None
+        call = st.value
+        if call.func.id in self.locals or not self.mod.has_func(call.func.id) or call.func.id == getattr(self.root, 'name', None) or self.depth > 1:
+            return None
+        h = self.mod.func(call.func.id)
+        hbody = [x for x in h.body if not (isinstance(x, ast.Expr) and isinstance(x.value, ast.Constant))]
+        if any(isinstance(n, (ast.Yield, ast.YieldFrom, ast.FunctionDef, ast.Lambda, ast.Global, ast.Nonlocal, ast.ClassDef)) for x in hbody for n in ast.walk(x)) or h.decorator_list:
+            return None
+        # only helpers private to this function (a per-construct helper of a dispatcher): a function with other callers is an anchor of its own
+        me = getattr(self.root, 'name', None)
+        others = {q.split('.')[0] for q, f in self.mod.funcs().items() if q.split('.')[0] not in (me, h.name)
+                  and any(isinstance(c, ast.Call) and isinstance(c.func, ast.Name) and c.func.id == h.name for c in ast.walk(f))}
+        if others:
+            return None
+        if any(isinstance(n, ast.Call) and isinstance(n.func, ast.Name) and n.func.id == h.name for x in hbody for n in ast.walk(x)):
+            return None
+        try:
+            bound = bind_call(call, h)     # type: ignore[arg-type]
+        except Undecided:
+            return None
+        pre: T.List[ast.stmt] = []
+        names: T.Dict[str, ast.AST] = {}
+        for pn, a in bound.items():
+            if isinstance(a, ast.Name):
+                names[pn] = a
+            else:
+                tmp = f'{h.name}__{pn}'
+                pre.append(ast.copy_location(ast.Assign(targets=[ast.Name(id=tmp, ctx=ast.Store())], value=a), st))
+                names[pn] = ast.Name(id=tmp, ctx=ast.Load())
+        body = [_Rename(names).visit(x) for x in copy.deepcopy(hbody)]
+        if not body or not isinstance(body[-1], (ast.Return, ast.Raise)):
+            body.append(ast.copy_location(ast.Return(value=ast.Constant(None)), st))
+        return [ast.fix_missing_locations(x) for x in pre + body]
+
     def _block(self, body: T.List[ast.stmt]) -> T.List[ast.stmt]:
         expanded: T.List[ast.stmt] = []
         for st in body:
-            rep_ = self._unroll(st) if isinstance(st, ast.For) else self._inline_returns(st)
+            rep_ = self._unroll(st) if isinstance(st, ast.For) else (self._inline_tail_call(st) or self._inline_returns(st))
             if rep_ is not None:
                 self.depth += 1
                 sub = _NormalForm(self.mod, self.root, self.cls)     # normalise the inserted code as well
@@ -885,8 +934,10 @@ def r1_cargo_parse(ctx: RuleCtx) -> None:
     rw = _SearchLoops()
     body = inline_list_builders(mod, [copy.deepcopy(s) for s in loop.body], OUT)     # an extracted ladder is read in place
     body = [rw.visit(s) for s in body]
-    tab = tables.extract(fn, body=body, effects=eff, inline=False, name='cargo_parse:loop')
     semdef = f'SemVer({vervar})'
+    sem0 = [st.targets[0].id for st in loop.body if isinstance(st, ast.Assign) and norm(st.value) == semdef and isinstance(st.targets[0], ast.Name)]
+    # tests are read with locals resolved by reaching definition (`is_pre = semver.has_prerelease; if is_pre:`); the SemVer local, the list and the flag stay names
+    tab = resolve_table(tables.extract(fn, body=body, effects=eff, inline=False, name='cargo_parse:loop'), opaque=sem0 + [OUT, ACC])
     # classify atoms: tests of the operator are decided per operator class (== constant, membership in a folded constant set / table)
     def const_table(e: ast.AST) -> T.Optional[T.Dict[T.Any, ast.AST]]:
         """A module-level dict display with constant keys, found through the name that is read (policy form c)."""
@@ -1150,6 +1201,28 @@ def _matcher(ctx: RuleCtx, mod: Module, fn: ast.FunctionDef, post: T.List[ast.st
                     comp = fl[0]
                 call = e
             tgt = comp.target if comp is not None else None
+            if comp is not None and norm(comp.iter) in (OUTs, OUTt) and isinstance(tgt, ast.Name) and isinstance(call, ast.Call):
+                # the pair kept as one record: `c.op(lhs, c.bound)` or a method of the record class doing that
+                rec = tgt.id
+                recs = [k for k in mod.classes().values() if any((attr_chain(b) or '').split('.')[-1] == 'NamedTuple' for b in k.bases)]
+                for k in recs:
+                    fields = [x.target.id for x in k.body if isinstance(x, ast.AnnAssign) and isinstance(x.target, ast.Name)]
+                    if len(fields) != 2:
+                        continue
+                    c2: T.Optional[ast.AST] = call
+                    meth = [x for x in k.body if isinstance(x, ast.FunctionDef) and isinstance(call.func, ast.Attribute) and norm(call.func.value) == rec and x.name == call.func.attr]
+                    if meth and len(meth[0].body) >= 1 and isinstance(meth[0].body[-1], ast.Return) and meth[0].body[-1].value is not None:
+                        b0 = bind_call(call, meth[0])
+                        b0[meth[0].args.args[0].arg] = ast.Name(id=rec, ctx=ast.Load())
+                        c2 = _Rename(b0).visit(copy.deepcopy(meth[0].body[-1].value))
+                    sub = {f'{rec}.{fields[0]}': '%F', f'{rec}.{fields[1]}': '%B'}
+                    txt = norm(c2)
+                    for a0, b0_ in sub.items():
+                        txt = txt.replace(a0, b0_)
+                    if txt in (f'%F({L}, %B)', f'%F(%B, {L})'):
+                        tgt = ast.Tuple(elts=[ast.Name(id='%F', ctx=ast.Load()), ast.Name(id='%B', ctx=ast.Load())], ctx=ast.Load())
+                        call = ast.Call(func=ast.Name(id='%F', ctx=ast.Load()), args=[ast.Name(id=x, ctx=ast.Load()) for x in ((L, '%B') if txt.startswith(f'%F({L}') else ('%B', L))], keywords=[])
+                        break
             if not (comp is not None and norm(comp.iter) in (OUTs, OUTt) and isinstance(tgt, ast.Tuple) and len(tgt.elts) == 2 and isinstance(call, ast.Call) and len(call.args) == 2):
                 raise Undecided(f'{qn}: atom {a!r} is not a comparison of the candidate with an appended pair of `{OUT}`')
             f, b = norm(tgt.elts[0]), norm(tgt.elts[1])
@@ -2680,7 +2753,20 @@ def r4_escape(ctx: RuleCtx) -> None:
         for c in ast.walk(fn):
             if isinstance(c, ast.Call) and isinstance(c.func, ast.Name) and c.func.id == '_parse':
                 callers.setdefault(q.split('.')[0], []).append(c)
-    extra = sorted(set(callers) - {'parse', '_parse'})
+    # a function that calls _parse and is itself reachable only from _parse / parse is part of the parser (per-production helpers)
+    def module_callers(name: str) -> T.Set[str]:
+        return {q.split('.')[0] for q, f in mod.funcs().items() if q.split('.')[0] != name
+                and any(isinstance(c, ast.Call) and isinstance(c.func, ast.Name) and c.func.id == name for c in ast.walk(f))}
+    inside = {'parse', '_parse'}
+    grew = True
+    while grew:
+        grew = False
+        for cand in set(callers) - inside:
+            cs = module_callers(cand)
+            if cs and cs <= inside:
+                inside.add(cand)
+                grew = True
+    extra = sorted(set(callers) - inside)
     if 'parse' not in callers:
         raise Undecided('_parse is not called from parse directly (moved behind a helper?)')
     ctx.require(not extra and 'parse' in callers, '_parse is called only by parse and by itself', mod, '<module>', '_parse callers',
